@@ -154,24 +154,49 @@ def lay(A, layout):
     return A
 
 
-def committor_job(n, sources, sinks, zero_pattern=None, reversible=None, layout='C'):
+def as_container(A, container):
+    """the matrix in a scipy.sparse container: symbolic shadow for SArr input, the real scipy class otherwise"""
+    if container is None:
+        return A
+    if isinstance(A, SArr):
+        from symnp import sparse as ssp
+        return ssp.CLASSES[container](A)
+    import scipy.sparse
+    return getattr(scipy.sparse, container + '_matrix')(A)
+
+
+def unchanged(arg, A0):
+    """caller's matrix (dense or sparse shadow) still holds the cells of A0"""
+    if isinstance(arg, SArr):
+        return conj([x == y for x, y in zip(arg.cells(), A0.cells())])
+    return conj([x == y for x, y in zip(arg.toarray().cells(), A0.cells())])
+
+
+def dn(x):
+    return np.asarray(x.toarray() if hasattr(x, 'toarray') else x)
+
+
+def committor_job(n, sources, sinks, zero_pattern=None, reversible=None, layout='C', container=None):
     tc = loader.load('enspara.tpt.core')
 
     def path(ctx):
         T, pi = sym_stochastic(ctx, n, zero_pattern, reversible=reversible)
         A = lay(funcs.np_array(T, dtype=float), layout)
         A0 = A.copy()
+        arg = as_container(A, container)
         exc = None
         try:
-            q = tc.committors(A, list(sources), list(sinks))
+            q = tc.committors(arg, list(sources), list(sinks))
             ql = cells(q)
+            shape_ok = tuple(q.shape) == (n,)
         except Exception as e:
             exc = e
 
         def witness(model):
             Tc = model_matrix(model, T)
-            out = {'inputs': {'tprob': Tc, 'sources': list(sources), 'sinks': list(sinks), 'memory_layout': layout}}
-            Ac = lay(np.array(Tc), layout)
+            out = {'inputs': {'tprob': Tc, 'sources': list(sources), 'sinks': list(sinks), 'memory_layout': layout,
+                              'container': container or 'ndarray'}}
+            Ac = as_container(lay(np.array(Tc), layout), container)
             with core.concrete_mode():
                 try:
                     qc = tc.committors(Ac, list(sources), list(sinks))
@@ -179,9 +204,11 @@ def committor_job(n, sources, sinks, zero_pattern=None, reversible=None, layout=
                     out.update(exception=repr(e), out=None, violated=['raises ' + type(e).__name__],
                                signature='exception:' + type(e).__name__)
                     return out
-            out['out'] = {'committors': [float(x) for x in qc]}
-            bad = run_oracle(first_step_committor(n, tolm(Tc), tolv(qc), sources, sinks))
-            if Ac.tolist() != Tc:
+            out['out'] = {'committors': [float(x) for x in np.asarray(qc).reshape(-1)]}
+            bad = run_oracle(first_step_committor(n, tolm(Tc), tolv(np.asarray(qc).reshape(-1)), sources, sinks))
+            if np.shape(qc) != (n,):
+                bad.append('committors-not-a-vector-of-length-n')
+            if dn(Ac).tolist() != Tc:
                 bad.append('transition-matrix-modified')
             out['violated'] = bad
             return out
@@ -189,12 +216,13 @@ def committor_job(n, sources, sinks, zero_pattern=None, reversible=None, layout=
             return PathOut([('no-exception', False)], {}, witness, exc=type(exc).__name__,
                            desc='raises %s: %s' % (type(exc).__name__, str(exc)[:100]))
         obs = first_step_committor(n, T, ql, sources, sinks)
-        obs.append(('transition-matrix-unmodified', conj([x == y for x, y in zip(A.cells(), A0.cells())])))
-        return PathOut(obs, {'committors': q}, witness, desc='committors n=%d %s->%s' % (n, sources, sinks))
+        obs.append(('committors-are-a-vector-of-length-n', shape_ok))
+        obs.append(('transition-matrix-unmodified', unchanged(arg, A0)))
+        return PathOut(obs, {'committors': q}, witness, desc='committors n=%d %s->%s %s' % (n, sources, sinks, container or ''))
     return path
 
 
-def mfpt_job(n, sinks=None, zero_pattern=None, given_pops=True, layout='C'):
+def mfpt_job(n, sinks=None, zero_pattern=None, given_pops=True, layout='C', container=None):
     tc = loader.load('enspara.tpt.core')
 
     def path(ctx):
@@ -203,14 +231,16 @@ def mfpt_job(n, sinks=None, zero_pattern=None, given_pops=True, layout='C'):
         ctx.add(core.to_z3_real(lag) > 0)
         A = lay(funcs.np_array(T, dtype=float), layout)
         A0 = A.copy()
+        arg = as_container(A, container)
         P = funcs.np_array(pi, dtype=float) if pi is not None else None
         exc = None
         try:
             if sinks is None:
-                M = tc.mfpts(A, populations=P, lagtime=lag)
+                M = tc.mfpts(arg, populations=P, lagtime=lag)
+                M = M.toarray() if hasattr(M, 'toarray') else M
                 Ml = [[_raw(M)[i, j] for j in range(n)] for i in range(n)]
             else:
-                m = tc.mfpts(A, sinks=list(sinks), populations=P, lagtime=lag)
+                m = tc.mfpts(arg, sinks=list(sinks), populations=P, lagtime=lag)
                 ml = cells(m)
         except Exception as e:
             exc = e
@@ -228,19 +258,20 @@ def mfpt_job(n, sinks=None, zero_pattern=None, given_pops=True, layout='C'):
         def witness(model):
             Tc = model_matrix(model, T)
             lc = fl(ev(model, lag))
-            out = {'inputs': {'tprob': Tc, 'sinks': list(sinks) if sinks is not None else None, 'lagtime': lc, 'memory_layout': layout}}
-            Ac = lay(np.array(Tc), layout)
+            out = {'inputs': {'tprob': Tc, 'sinks': list(sinks) if sinks is not None else None, 'lagtime': lc, 'memory_layout': layout,
+                              'container': container or 'ndarray'}}
+            Ac = as_container(lay(np.array(Tc), layout), container)
             pc = np.array([fl(ev(model, p)) for p in pi]) if pi is not None else None
             if pc is not None:
                 out['inputs']['populations'] = pc.tolist()
             with core.concrete_mode():
                 try:
                     if sinks is None:
-                        r = tc.mfpts(Ac, populations=pc, lagtime=lc)
+                        r = dn(tc.mfpts(Ac, populations=pc, lagtime=lc))
                         res = tolm(r.tolist())
                         out['out'] = {'mfpts': r.tolist()}
                     else:
-                        r = tc.mfpts(Ac, sinks=list(sinks), populations=pc, lagtime=lc)
+                        r = np.asarray(tc.mfpts(Ac, sinks=list(sinks), populations=pc, lagtime=lc)).reshape(-1)
                         res = tolv(r)
                         out['out'] = {'mfpts': [float(x) for x in r]}
                 except Exception as e:
@@ -248,7 +279,7 @@ def mfpt_job(n, sinks=None, zero_pattern=None, given_pops=True, layout='C'):
                                signature='exception:' + type(e).__name__)
                     return out
             bad = run_oracle(oracle(tolm(Tc), Tol(lc), res))
-            if Ac.tolist() != Tc:
+            if dn(Ac).tolist() != Tc:
                 bad.append('transition-matrix-modified')
             out['violated'] = bad
             return out
@@ -256,8 +287,8 @@ def mfpt_job(n, sinks=None, zero_pattern=None, given_pops=True, layout='C'):
             return PathOut([('no-exception', False)], {}, witness, exc=type(exc).__name__,
                            desc='raises %s: %s' % (type(exc).__name__, str(exc)[:100]))
         obs = oracle(T, lag, Ml if sinks is None else ml)
-        obs.append(('transition-matrix-unmodified', conj([x == y for x, y in zip(A.cells(), A0.cells())])))
-        return PathOut(obs, {'mfpts': M if sinks is None else m}, witness, desc='mfpts n=%d sinks=%s' % (n, sinks))
+        obs.append(('transition-matrix-unmodified', unchanged(arg, A0)))
+        return PathOut(obs, {'mfpts': M if sinks is None else m}, witness, desc='mfpts n=%d sinks=%s %s' % (n, sinks, container or ''))
     return path
 
 
@@ -306,7 +337,7 @@ def flux_oracle(n, T, pi, q, F, NF, RP, sources, sinks):
     return obs
 
 
-def flux_job(n, sources, sinks, zero_pattern=None):
+def flux_job(n, sources, sinks, zero_pattern=None, container=None):
     tc = loader.load('enspara.tpt.core')
     tt = loader.load('enspara.tpt.tpt')
 
@@ -315,22 +346,29 @@ def flux_job(n, sources, sinks, zero_pattern=None):
         A = funcs.np_array(T, dtype=float)
         P = funcs.np_array(pi, dtype=float)
         A0, P0 = A.copy(), P.copy()
+        arg = as_container(A, container)
         exc = None
         try:
-            q = tc.committors(A, list(sources), list(sinks))
-            F = tt.reactive_fluxes(A, list(sources), list(sinks), populations=P)
-            NF = tt.net_fluxes(A, list(sources), list(sinks), populations=P)
-            RP = tt.reactive_populations(A, list(sources), list(sinks), populations=P)
-            Fl = [[_raw(F)[i, j] for j in range(n)] for i in range(n)]
-            NFl = [[_raw(NF)[i, j] for j in range(n)] for i in range(n)]
+            q = tc.committors(arg, list(sources), list(sinks))
+            F = tt.reactive_fluxes(arg, list(sources), list(sinks), populations=P)
+            NF = tt.net_fluxes(arg, list(sources), list(sinks), populations=P)
+            RP = tt.reactive_populations(arg, list(sources), list(sinks), populations=P)
+            Fd = F.toarray() if hasattr(F, 'toarray') else F
+            NFd = NF.toarray() if hasattr(NF, 'toarray') else NF
+            Fl = [[_raw(Fd)[i, j] for j in range(n)] for i in range(n)]
+            NFl = [[_raw(NFd)[i, j] for j in range(n)] for i in range(n)]
+            sparse_ok = container is None or (hasattr(F, 'toarray') and hasattr(NF, 'toarray'))
         except Exception as e:
+            if __import__('os').environ.get('VERIF_DEBUG'):
+                import traceback
+                traceback.print_exc()
             exc = e
 
         def witness(model):
             Tc = model_matrix(model, T)
             pc = [fl(ev(model, p)) for p in pi]
-            out = {'inputs': {'tprob': Tc, 'populations': pc, 'sources': list(sources), 'sinks': list(sinks)}}
-            Ac, Pc = np.array(Tc), np.array(pc)
+            out = {'inputs': {'tprob': Tc, 'populations': pc, 'sources': list(sources), 'sinks': list(sinks), 'container': container or 'ndarray'}}
+            Ac, Pc = as_container(np.array(Tc), container), np.array(pc)
             with core.concrete_mode():
                 try:
                     qc = tc.committors(Ac, list(sources), list(sinks))
@@ -341,11 +379,15 @@ def flux_job(n, sources, sinks, zero_pattern=None):
                     out.update(exception=repr(e), out=None, violated=['raises ' + type(e).__name__],
                                signature='exception:' + type(e).__name__)
                     return out
+            sp_ok = container is None or (hasattr(Fc, 'toarray') and hasattr(NFc, 'toarray'))
+            Fc, NFc, qc, RPc = dn(Fc), dn(NFc), np.asarray(qc).reshape(-1), np.asarray(RPc).reshape(-1)
             out['out'] = {'fluxes': Fc.tolist(), 'net_fluxes': NFc.tolist(), 'reactive_populations': RPc.tolist()}
             Tol.TOL = 1e-7
             bad = run_oracle(flux_oracle(n, tolm(Tc), tolv(pc), tolv(qc), tolm(Fc.tolist()), tolm(NFc.tolist()),
                                          tolv(RPc), list(sources), list(sinks)))
-            if Ac.tolist() != Tc or Pc.tolist() != pc:
+            if not sp_ok:
+                bad.append('sparse-input-gives-dense-flux-matrix')
+            if dn(Ac).tolist() != Tc or Pc.tolist() != pc:
                 bad.append('inputs-modified')
             out['violated'] = bad
             return out
@@ -353,9 +395,10 @@ def flux_job(n, sources, sinks, zero_pattern=None):
             return PathOut([('no-exception', False)], {}, witness, exc=type(exc).__name__,
                            desc='raises %s: %s' % (type(exc).__name__, str(exc)[:100]))
         obs = flux_oracle(n, T, pi, cells(q), Fl, NFl, cells(RP), list(sources), list(sinks))
-        obs.append(('inputs-unmodified', conj([x == y for x, y in zip(A.cells() + P.cells(), A0.cells() + P0.cells())])))
-        return PathOut(obs, {'fluxes': F, 'net_fluxes': NF, 'reactive_populations': RP}, witness,
-                       desc='fluxes n=%d %s->%s' % (n, sources, sinks))
+        obs.append(('inputs-unmodified', unchanged(arg, A0) & conj([x == y for x, y in zip(P.cells(), P0.cells())])))
+        obs.append(('sparse-input-gives-sparse-flux-matrices', sparse_ok))
+        return PathOut(obs, {'fluxes': Fd, 'net_fluxes': NFd, 'reactive_populations': RP}, witness,
+                       desc='fluxes n=%d %s->%s %s' % (n, sources, sinks, container or ''))
     return path
 
 
